@@ -21,11 +21,13 @@ from ..values import C, FALSE, NONE, TRUE, App, Cls, Ref, Sym, Tup
 READ = f"{RF}.read"
 
 
-def read_paths(ctx, on_cont: bool, skip: bool, ops=("TEXT", "BINARY", "CONT", "PING", "PONG"), may_raise=None, extra_env=None, errors=(), reassembled=False):
+def read_paths(ctx, on_cont: bool, skip: bool, ops=("TEXT", "BINARY", "CONT", "PING", "PONG"), may_raise=None, extra_env=None, errors=(), reassembled=False, callbacks=None):
     I = Interp(ctx.index, Config(stubs=sock_stubs(frame_source(ops, errors, reassembled=reassembled)), may_raise=may_raise))
 
     def closure(run):
-        app = mk_app(I, run, {"on_cont_message": on_cont}, keep_running=TRUE)
+        cbs = {"on_cont_message": on_cont}
+        cbs.update(callbacks or {})
+        app = mk_app(I, run, cbs, keep_running=TRUE)
         run.cell(app).fields["sock"] = mk_sock(run)
         env = closure_env(run, app, skip_utf8_validation=C(skip))
         env.update(extra_env or {})
@@ -68,6 +70,25 @@ def r1(ctx):
                 ctx.ob(f"{READ}:{op}{frag}:on_cont_message={'set' if on_cont else 'none'}:skip_utf8={skip}", ok,
                        f"callbacks {calls}" if ok else f"callbacks {calls}, frames read {len(reads)}, result {o.kind} {o.value!r}; the routing table requires {want} after exactly one recv_data_frame(True)",
                        loc, {"path": path_text(o)})
+
+
+@rule("R-C13-6", min_instances=5, title="every subset of callbacks: with no handler installed a frame is consumed silently -- no write, no exception, the loop goes on")
+def r6(ctx):
+    from ..appmodel import CALLBACKS as CBS
+    loc = ctx.index.loc(ctx.index.func(READ).node)
+    for label, cbs in (("none-set", {k: False for k in CBS}), ("only-on_message", {k: (k == "on_message") for k in CBS}),
+                       ("only-on_error", {k: (k == "on_error") for k in CBS})):
+        I, outs = read_paths(ctx, False, False, callbacks=cbs, reassembled=True)
+        for o in outs:
+            op = o.run.memo.get("frame_op")
+            wrote = [e.name for e in o.effects if e.name.startswith("appsock.") and e.name != "appsock.recv_data_frame"]
+            calls = [e.name for e in user_calls(o)]
+            allowed = [k for k, v in cbs.items() if v]
+            ok = o.kind == "return" and o.value == TRUE and not wrote and all(c in allowed for c in calls)
+            ctx.ob(f"{READ}:callbacks={label}:{op}{':reassembled' if o.run.memo.get('reassembled') else ''}", ok,
+                   f"callbacks {calls}, nothing written" if ok else
+                   f"with callbacks {label} a {op} frame makes read() end as {o.kind} {o.exc_class or o.value!r}, call {calls} and write {wrote}: "
+                   f"a missing handler must simply mean the event is dropped (the receive loop has already answered pings)", loc, {"path": path_text(o)})
 
 
 @rule("R-C13-2", min_instances=3, title="containment: user callbacks run only inside _callback; an exception goes to on_error and does not propagate")
